@@ -216,7 +216,7 @@ PROPS.update({
 
 PROPS.update({
     'C11': dict(
-        extra_modules=['GraphrsModel.Props.C11Model', 'GraphrsModel.Props.C11Weighted'],
+        extra_modules=['GraphrsModel.Props.C11Model', 'GraphrsModel.Props.C11Weighted', 'GraphrsModel.Props.C11GenDeg'],
         gens=[('clu', 'small', 2500, 40000, 7), ('clu', 'small', 100, 2000, 16)],
         spec_fields=[r'tri', r'triS', r'gd', r'gdS', r'trans:q', r'clu:q', r'cluS:q', r'wclu:b', r'wcluS:b', r'avg1:b', r'avg0:b',
                      r'avgS:b', r'sq:q', r'sqS:q', r'ok\.unit'],
@@ -252,7 +252,7 @@ PROPS.update({
         assumptions=COMMON_ASSUME,
     ),
     'C13': dict(
-        extra_modules=['GraphrsModel.Props.C13Model'],
+        extra_modules=['GraphrsModel.Props.C13Model', 'GraphrsModel.Props.C13Termination'],
         gens=[('louv', 'random', 1500, 25000, 9), ('louv', 'ties', 500, 8000, 10), ('louv', 'strand', 1500, 25000, 6), ('louv', 'random', 100, 2000, 20)],
         spec_fields=[r'ok\.levels', r'ok\.nested', r'ok\.monotone', r'ok\.last'], model_fields=[r'build', r'parts'],
         nontrivial=lambda req, I: ',' in I.get('parts', ''),
@@ -265,12 +265,12 @@ PROPS.update({
     'C17': dict(
         extra_modules=['GraphrsModel.Props.C17Model'],
         thorough_scale=2,
-        gens=[('louv', 'ties', 1200, 20000, 12), ('louv', 'random', 600, 10000, 9)],
+        gens=[('louv', 'ties', 1200, 20000, 12), ('louv', 'random', 600, 10000, 9), ('louv', 'nearties', 300, 5000, 0), ('louv', 'inexact', 600, 10000, 10)],
         spec_fields=[], model_fields=[r'build'], impl_checks=[('same', '1')],
         extra_checks=['fresh_process_identical'],
         nontrivial=lambda req, I: ',' in I.get('parts', ''),
         hist=lambda req, I: graph_hist(req, I) + ['levels.%d' % len(I.get('parts', '').split())],
-        rule=LOUV_RULE + '; each case is run twice in one process, in rayon pools of 1 and 4 threads, and again in a second process',
+        rule=LOUV_RULE + '; profile "nearties": a hub joined to 3-5 identical cliques by edges whose weights differ in the tenth significant digit, or are all of the order 1e-9 (gains neither equal nor clearly apart); profile "inexact": random and tie-rich graphs with decimal weights k/3, k/7, k/10, k/100, k·1e-10 (sums not exact in f64); each case is run twice in one process, in rayon pools of 1 and 4 threads, and again in a second process',
         assumptions=COMMON_ASSUME[:2] + ['the std hasher (RandomState) is library code: its per-instance keying is exercised by repeated calls '
                                          'and fresh processes, not modelled'],
     ),
@@ -441,8 +441,8 @@ PROPS.update({
         spec_fields=[r'.*'], model_fields=DEGEN_MODEL, require_spec_fields=False, custom=degen_custom,
         nontrivial=lambda req, I: True,
         hist=lambda req, I: graph_hist(req, I) + ['calls.%d' % sum(len(v.split()) for v in I.values())],
-        rule='exhaustive: 8 graph kinds x 18 degenerate shapes (empty, single node, two isolated nodes, single edge, path, triangle, '
-             'parallel edges, lone self-loop, reciprocal pair with self-loop, self-loop with parallel edges, edge plus isolated node, mixed; six larger ones: 6 isolated nodes, 6 nodes with (parallel) self-loops only, 9 nodes in three components, 22 isolated nodes, 22 nodes with one edge and one self-loop, a 23-node path - above the rayon threshold) '
+        rule='exhaustive: 8 graph kinds x 22 degenerate shapes (empty, single node, two isolated nodes, single edge, path, triangle, '
+             'parallel edges, lone self-loop, reciprocal pair with self-loop, self-loop with parallel edges, edge plus isolated node, mixed; ten larger ones: 6 isolated nodes, 6 nodes with (parallel) self-loops only, 9 nodes in three components, 22 isolated nodes, 22 nodes with one edge and one self-loop, a 23-node path, a 23-node out-star (22 sinks), a 23-node in-star, two hubs over 20 common sinks, a 25-cycle with pendant sinks and an isolated node - above the rayon threshold) '
              'x 3 weight modes x the duplicate-edge policies under which the shape can be built; ~100 public functions, arguments = every name of the graph (first two and last of a larger graph) plus one absent name (functions with an error '
              'channel), every ordered pair, four node sets; each call under catch_unwind, Louvain and eigenvector under a 5 s watchdog; '
              'harness built with overflow-checks and debug-assertions on (thorough: also without); every case counts as non-trivial',
